@@ -80,6 +80,12 @@ func multiReader(data []byte, parts []MultiPart) io.Reader {
 type WrapPre struct {
 	R     ReaderScript `json:"r"`
 	Calls int          `json:"calls"`
+	// Other: the prior use went through ANOTHER WrappedParser around the
+	// same parser (or, with Direct, through the parser's own Write/Parse);
+	// the wrapper of the case is created afterwards and Reset to the reader
+	// of the case before it has read anything.
+	Other  bool `json:"other,omitempty"`
+	Direct bool `json:"direct,omitempty"`
 }
 
 type wrapBlock struct {
@@ -165,12 +171,25 @@ func runWrapMode(c WrapCase, plain, multi bool) (*wrapExec, error) {
 				}
 			}()
 			var b lz.Block
-			for i := 0; i < c.Pre.Calls; i++ {
-				// the caller goes on after a reader fault and stops at
-				// io.EOF
-				if _, err := wp.Parse(&b, 0); err != nil && !isReaderFault(err) {
-					break
+			if c.Pre.Direct {
+				_, _ = p.Write(c.Pre.R.Data)
+				for i := 0; i < c.Pre.Calls; i++ {
+					if _, err := p.Parse(&b, 0); err != nil {
+						break
+					}
 				}
+			} else {
+				for i := 0; i < c.Pre.Calls; i++ {
+					// the caller goes on after a reader fault and stops at
+					// io.EOF
+					if _, err := wp.Parse(&b, 0); err != nil && !isReaderFault(err) {
+						break
+					}
+				}
+			}
+			if c.Pre.Other || c.Pre.Direct {
+				// a new wrapper around the used parser, Reset at once
+				wp = lz.Wrap(bytes.NewReader([]byte("a reader that is never read")), p)
 			}
 			wp.Reset(rd)
 			return false
@@ -383,7 +402,8 @@ func genWrapCase(t *rapid.T, kind string, maxBuf int, faults, eqShrink, nilCalls
 
 func genWrapPre(t *rapid.T, faults bool) *WrapPre {
 	pre := genText(t, "preText", 300)
-	return &WrapPre{R: genReaderScript(t, "preRS", pre, faults), Calls: rapid.IntRange(0, 12).Draw(t, "preCalls")}
+	how := rapid.IntRange(0, 3).Draw(t, "preHow")
+	return &WrapPre{R: genReaderScript(t, "preRS", pre, faults), Calls: rapid.IntRange(0, 12).Draw(t, "preCalls"), Other: how == 1, Direct: how == 2}
 }
 
 func genWrapCase0(t *rapid.T, kind string, maxBuf int, faults, eqShrink, nilCalls bool) WrapCase {
